@@ -179,6 +179,44 @@ def job_chunks(P, taps, Wtot, cplx=False):
     return recs
 
 
+def job_reconfigured(P0, taps0, P, taps, Wtot):
+    """a filterbank object built for (taps0, P0) whose sizes are then re-assigned to (taps, P) and whose window is
+    redesigned (fb._get_pfb_window()): streamed in chunks it is the (taps, P) filterbank -- nothing sized at construction
+    survives"""
+    recs = []
+    for comp in compositions(Wtot):
+        tag = f"C08:reconfigured:{(P0, taps0)}->{(P, taps)}:{comp}"
+        with volt_patches():
+            fb = PF.PolyphaseFilterbank(num_taps=taps0, num_branches=P0)
+            fb.num_taps, fb.num_branches = taps, P
+            fb._get_pfb_window()
+            if len(fb.window) != taps * P:
+                recs.append(q(tag, 'sat'))
+                recs.append(cex('C08:reconfigured', 'window not redesigned for the re-assigned sizes', dict(fn='pfb', P=P, taps=taps, chunks=list(comp), cplx=False, scenario='reconfigured', P0=P0, taps0=taps0), name=tag))
+                continue
+            fb.window = npx.sarr([Sym(z3.Real(f'w_{m}')) for m in range(taps * P)])
+            x = sym_stream('x', Wtot * taps * P)
+            ws = [lift(w) for w in fb.window]
+            outs, pos = [], 0
+            for c in comp:
+                n = c * taps * P
+                outs.append(fb.channelize(x[pos:pos + n], cache=True))
+                pos += n
+        xs = stream_terms(x)
+        pairs, off, ok = [], 0, True
+        for ci, (c, o) in enumerate(zip(comp, outs)):
+            nspec = (c - 1) * taps if ci == 0 else c * taps
+            pr = check_out(o, xs, ws, P, taps, nspec, offset=off)
+            if pr is None:
+                ok = False
+                break
+            pairs += pr
+            off += nspec
+        decide(tag, pairs if ok else None, recs, 'C08:reconfigured', f'filterbank re-sized from {(taps0, P0)} to {(taps, P)} (taps, branches): chunks {comp} differ from the one-shot spectra of the new sizes',
+               dict(fn='pfb', P=P, taps=taps, chunks=list(comp), cplx=False, scenario='reconfigured', P0=P0, taps0=taps0))
+    return recs
+
+
 def job_cache_isolation(P, taps):
     """cache=False calls neither use nor disturb the cache; two objects do not interact;
     _reset_cache starts a fresh stream"""
@@ -379,8 +417,14 @@ def replay_pfb(p):
     from setigen.voltage import polyphase_filterbank as pf
     P, taps, chunks, sc = p['P'], p['taps'], p['chunks'], p['scenario']
     rng = np.random.default_rng(11)
-    fb = pf.PolyphaseFilterbank(num_taps=taps, num_branches=P)
-    w = np.array(fb.window)
+    if sc == 'reconfigured':
+        # built for other sizes, re-sized, window redesigned
+        fb = pf.PolyphaseFilterbank(num_taps=p['taps0'], num_branches=p['P0'])
+        fb.num_taps, fb.num_branches = taps, P
+        fb._get_pfb_window()
+    else:
+        fb = pf.PolyphaseFilterbank(num_taps=taps, num_branches=P)
+    w = np.array(pf.PolyphaseFilterbank(num_taps=taps, num_branches=P).window)
     tot = sum(chunks) * taps * P
     x = rng.standard_normal(tot) + (1j * rng.standard_normal(tot) if p.get('cplx') else 0)
     ref = ref_pfb(x, w, P, taps)[:, :P // 2]
@@ -408,7 +452,7 @@ def replay_pfb(p):
         out = pf.get_pfb_voltages(x, taps, P)
         if not close(out, ref_pfb(x, w, P, taps)[:, :P // 2 + 1]):
             msgs.append("get_pfb_voltages differs from definition")
-    elif sc == 'chunks':
+    elif sc in ('chunks', 'reconfigured'):
         outs, pos = [], 0
         for c in chunks:
             outs.append(fb.channelize(x[pos:pos + c * taps * P], cache=True))
@@ -484,6 +528,8 @@ def main():
     for (P_, taps_, W_) in ((2, 1, 1032), (2, 3, 400)) + (((4, 2, 777), (2, 8, 201)) if ck.thorough else ()):
         jobs.append(('job_definition', (P_, taps_, W_, False)))
     jobs.append(('job_window_history', ()))
+    for (P0_, t0_, P_, t_) in ((4, 2, 4, 1), (4, 1, 4, 2), (2, 2, 4, 2), (8, 2, 4, 2)):
+        jobs.append(('job_reconfigured', (P0_, t0_, P_, t_, 3)))
     for taps in ((1, 2, 3, 4, 7, 8) if not ck.thorough else range(1, 17)):
         for P in ((2, 3, 6, 7, 10, 14, 49, 64, 100) if not ck.thorough else (2, 3, 5, 6, 7, 10, 12, 14, 17, 23, 24, 49, 64, 100, 1000, 1024)):
             jobs.append(('job_window_count', (taps, P)))
